@@ -76,7 +76,18 @@ def dump_value(v):
         'value': v._value,
         'meta': meta,
     }
-    return json.dumps(data)
+    try:
+        return json.dumps(data)
+    except (TypeError, ValueError) as exc:
+        # a result (or an attribute of the event) that json cannot carry: the
+        # sender is waiting for an answer and gets told that much
+        data = {
+            'id': v.node_call_id,
+            'errors': True,
+            'value': [type(exc).__name__, str(exc)],
+            'meta': {},
+        }
+        return json.dumps(data)
 
 
 def load_value(v):
